@@ -175,7 +175,10 @@ func c26Stream(rpc string, ctx context.Context) any {
 
 const c26Island = 1
 
-var c26CallTimeout = 6 * time.Second
+// a handler that has not returned after c26CallTimeout is given c26CallGrace more before it is called hung:
+// a loaded machine makes replies slow, not absent
+var c26CallTimeout = 10 * time.Second
+var c26CallGrace = 50 * time.Second
 
 var c26Seeded = []string{"c26/seed/main", "c26/seed/other"}
 
@@ -303,7 +306,7 @@ func c26Close(st *c26State, nm string) (vig bool, closed bool) {
 	select {
 	case v := <-done:
 		return v, true
-	case <-time.After(5 * time.Second):
+	case <-time.After(60 * time.Second):
 		return false, false
 	}
 }
@@ -325,7 +328,7 @@ func c26Flush(st *c26State, names map[string]bool) {
 		}()
 		select {
 		case <-done:
-		case <-time.After(5 * time.Second):
+		case <-time.After(60 * time.Second):
 		}
 	}
 }
@@ -377,7 +380,7 @@ func c26StopRig(st *c26State) string {
 	res := "ok"
 	select {
 	case <-done:
-	case <-time.After(8 * time.Second):
+	case <-time.After(60 * time.Second):
 		res = "hang"
 	}
 	lock := 0
@@ -512,7 +515,11 @@ func c26Call(st *c26State, rpc c26Rpc, msg proto.Message) (class string, recover
 	select {
 	case <-finished:
 	case <-time.After(c26CallTimeout):
-		return "hang", atomic.LoadInt64(&c26Panics) - p0
+		select {
+		case <-finished: // slow, not stuck
+		case <-time.After(c26CallGrace):
+			return "hang", atomic.LoadInt64(&c26Panics) - p0
+		}
 	}
 	recovered = atomic.LoadInt64(&c26Panics) - p0
 	if escaped {
@@ -842,7 +849,7 @@ func c26Child(line string) string {
 	go func() { done <- cmd.Wait() }()
 	select {
 	case err = <-done:
-	case <-time.After(60 * time.Second):
+	case <-time.After(240 * time.Second):
 		_ = cmd.Process.Kill()
 		return "panic p=0 lock=0 vig=0 store=same close=hang"
 	}
@@ -980,6 +987,8 @@ func c26Base(rpc c26Rpc) proto.Message {
 			}
 		case "Limit", "HowMany":
 			m.Set(fd, protoreflect.ValueOfInt32(2))
+		case "SetIfNotExist", "SetIfExist", "Condition":
+			_ = m.Mutable(fd).Message() // present and empty: its fields get mutated one by one
 		case "Value":
 			if fd.Kind() == protoreflect.Uint32Kind {
 				m.Set(fd, protoreflect.ValueOfUint32(2))
@@ -1051,7 +1060,42 @@ func c26Mutations(base proto.Message, rng *rand.Rand, doubles int) []c26Mut {
 			}
 			curLabel, curKind = string(fd.Name()), ""
 			set := func(v protoreflect.Value) {
+				// the label names the field and the class of the value, so that a recorded finding can say
+				// `From<0` instead of "something about From"
+				base := curLabel
+				switch x := v.Interface().(type) {
+				case int32:
+					curLabel += c26NumClass(int64(x))
+				case int64:
+					curLabel += c26NumClass(x)
+				case uint32:
+					curLabel += c26NumClass(int64(x))
+				case uint64:
+					if x > 1<<62 {
+						curLabel += ">0"
+					} else {
+						curLabel += c26NumClass(int64(x))
+					}
+				case float32:
+					curLabel += c26NumClass(int64(x * 2))
+				case float64:
+					curLabel += c26NumClass(int64(x * 2))
+				case string:
+					switch {
+					case x == "":
+						curLabel += ":empty"
+					case len(x) > 65535:
+						curLabel += ":over65535"
+					case len(x) == 65535:
+						curLabel += ":65535"
+					}
+				case protoreflect.EnumNumber:
+					if fd.Enum() != nil && (int(x) < 0 || int(x) >= fd.Enum().Values().Len()) {
+						curLabel += ":outofrange"
+					}
+				}
 				apply(path, func(mm protoreflect.Message) { mm.Set(mm.Descriptor().Fields().Get(fi), v) })
+				curLabel = base
 			}
 			clear := func() { apply(path, func(mm protoreflect.Message) { mm.Clear(mm.Descriptor().Fields().Get(fi)) }) }
 			switch {
@@ -1217,6 +1261,16 @@ func c26Mutations(base proto.Message, rng *rand.Rand, doubles int) []c26Mut {
 	return out
 }
 
+func c26NumClass(v int64) string {
+	switch {
+	case v < 0:
+		return "<0"
+	case v == 0:
+		return "=0"
+	}
+	return ">0"
+}
+
 func c26Filter(bytesField bool) *hydrapb.FilterGroup {
 	f := &hydrapb.TreasureFilter{Operator: hydrapb.Relational_EQUAL, CompareValue: &hydrapb.TreasureFilter_Int32Val{Int32Val: 1}}
 	if bytesField {
@@ -1245,11 +1299,11 @@ func c26Directed(rpc c26Rpc) []c26Mut {
 	const S = "c26/seed/main"
 	switch rpc.name {
 	case "GetByIndex":
-		return []c26Mut{{&hydrapb.GetByIndexRequest{IslandID: c26Island, SwampName: S, From: -1, Limit: 2}, "From", "directed"}}
+		return []c26Mut{{&hydrapb.GetByIndexRequest{IslandID: c26Island, SwampName: S, From: -1, Limit: 2}, "From<0", "directed"}}
 	case "GetByIndexStream":
-		return []c26Mut{{&hydrapb.GetByIndexStreamRequest{IslandID: c26Island, SwampName: S, From: -1, Limit: 2}, "From", "directed"}}
+		return []c26Mut{{&hydrapb.GetByIndexStreamRequest{IslandID: c26Island, SwampName: S, From: -1, Limit: 2}, "From<0", "directed"}}
 	case "GetByIndexStreamFromMany":
-		return []c26Mut{{&hydrapb.GetByIndexStreamFromManyRequest{Queries: []*hydrapb.SwampQuery{{IslandID: c26Island, SwampName: S, From: -1, Limit: 2}}}, "From", "directed"}}
+		return []c26Mut{{&hydrapb.GetByIndexStreamFromManyRequest{Queries: []*hydrapb.SwampQuery{{IslandID: c26Island, SwampName: S, From: -1, Limit: 2}}}, "From<0", "directed"}}
 	case "Uint32SliceDelete":
 		return []c26Mut{
 			{&hydrapb.Uint32SliceDeleteRequest{IslandID: c26Island, SwampName: S, KeySlicePairs: []*hydrapb.KeySlicePair{{Key: "s1", Values: []uint32{1}}}}, "Key", "directed"},
@@ -1396,8 +1450,12 @@ func c26EntryShape(m protoreflect.Message, mode string) string {
 			li = m.Get(fd).String() == ""
 		}
 	}
-	return fmt.Sprintf("p%d,ne%s,ep%s,x%s,k%s,kv%s,kb%s,iz%s,oe%s,mn%s,pe%s,cap%s,lk%s,li%s,t%s", len(parts), c26B(nm == ""), c26B(ep), c26B(exist), keys,
-		c26B(kv), c26B(kb), c26B(iz), c26B(oe), c26B(mn), c26B(pe), cp, c26B(lk), c26B(li), c26B(!c26GenTel))
+	fn := false
+	if fd := get("From"); fd != nil && (fd.Kind() == protoreflect.Int32Kind || fd.Kind() == protoreflect.Int64Kind) {
+		fn = m.Get(fd).Int() < 0
+	}
+	return fmt.Sprintf("p%d,ne%s,ep%s,x%s,k%s,kv%s,kb%s,fn%s,iz%s,oe%s,mn%s,pe%s,cap%s,lk%s,li%s,t%s", len(parts), c26B(nm == ""), c26B(ep), c26B(exist), keys,
+		c26B(kv), c26B(kb), c26B(fn), c26B(iz), c26B(oe), c26B(mn), c26B(pe), cp, c26B(lk), c26B(li), c26B(!c26GenTel))
 }
 
 func c26Shape(msg proto.Message, mode string) string {
